@@ -71,12 +71,20 @@ SCHED = {
 }
 
 
-def run_capture(watch, sched, values=None, rec=None, with_wvf=True, second=False):
+def run_capture(watch, sched, values=None, rec=None, with_wvf=True, second=False, late=False):
     """returns (recorded {wire name: list}, expected {wire name: list}, vars)"""
     with quiet():
         s = py4hw.HWSystem()
         w = build(s)
         wl = WATCH[watch](w)
+        if late:
+            # the recorder is attached to a design that has ALREADY been simulated: a first simulator is obtained and clocked once
+            # (inputs 0) before the Waveform exists; nothing else changes in the design
+            if values is None:
+                symsim.instrument(s, rec)
+            w['a'].put(0)
+            w['b'].put(0)
+            s.getSimulator().clk(1)
         wvf = Waveform(s, 'wvf', wl) if with_wvf else None
         # a second, independent recorder in the same design that shares wires with the first ('D' in a schedule clears only this one)
         wl2 = [w['q'], w['a']] if second else []
@@ -142,18 +150,19 @@ def run_capture(watch, sched, values=None, rec=None, with_wvf=True, second=False
 def capture_task(p, cfg, rec):
     watch, sched = cfg['watch'], cfg['sched']
     second = cfg.get('second', False)
-    recorded, _, vars_, wvf, s = run_capture(watch, SCHED[sched], rec=rec, second=second)
+    late = cfg.get('late', False)
+    recorded, _, vars_, wvf, s = run_capture(watch, SCHED[sched], rec=rec, second=second, late=late)
     rec2 = run_capture.second[0] if second else None
-    _, expected, v2, _, _ = run_capture(watch, SCHED[sched], rec=rec, with_wvf=False, second=second)
+    _, expected, v2, _, _ = run_capture(watch, SCHED[sched], rec=rec, with_wvf=False, second=second, late=late)
     exp2 = run_capture.second[1] if second else None
     cycles = sum(x for x in SCHED[sched][max([i for i, x in enumerate(SCHED[sched]) if x == 'C'] + [-1]) + 1:] if x not in ('C', 'D'))
     p.res['states'] += 1
     p.res['transitions'] += cycles
 
     def replay(values):
-        r, _, _, _, _ = run_capture(watch, SCHED[sched], values=values, second=second)
+        r, _, _, _, _ = run_capture(watch, SCHED[sched], values=values, second=second, late=late)
         r2 = run_capture.second[0] if second else None
-        _, e, _, _, _ = run_capture(watch, SCHED[sched], values=values, with_wvf=False, second=second)
+        _, e, _, _, _ = run_capture(watch, SCHED[sched], values=values, with_wvf=False, second=second, late=late)
         e2 = run_capture.second[1] if second else None
         if second and r2 != e2:
             return {'second recorder': r2, 'carried_into_each_edge': e2, 'schedule': SCHED[sched]}
@@ -399,6 +408,11 @@ def tasks_for(tier):
             if quick and wname not in ('a,b,q', 'duplicate q,q,a', 'port alias (reg.q port, q wire)', 'register of a second clock domain') and sname not in ('1x6', '3, clear, 2'):
                 continue
             t.append(('capture watch[%s] schedule[%s]' % (wname, sname), capture_task, {'watch': wname, 'sched': sname}))
+    # a recorder attached after the design was already simulated once
+    for wname in (('a,b,q', 'comb n and c') if quick else ('a,b,q', 'comb n and c', 'duplicate q,q,a', 'port alias (reg.q port, q wire)', 'input a', 'register of a second clock domain')):
+        for sname in ('2+1+3', '3, clear, 2', '1x6'):
+            t.append(('capture with the recorder attached after a first simulator was obtained and clocked: watch[%s] schedule[%s]' % (wname, sname), capture_task,
+                      {'watch': wname, 'sched': sname, 'late': True}))
     # two recorders in one design that share wires: samples, lengths and clear() of one must not touch the other
     for wname in (('a,b,q', 'comb n and c') if quick else ('a,b,q', 'comb n and c', 'duplicate q,q,a', 'port alias (reg.q port, q wire)', 'input a')):
         for sname in ('2+1+3', '3, clear, 2', '2, clear second, 2', '2, clear first, 1, clear second, 2'):
